@@ -636,6 +636,16 @@ def _retained_axis(tests) -> int | None:
     return None
 
 
+def _has_unknown(v) -> bool:
+    from ..gridleaf import Seq, Unknown
+
+    if isinstance(v, Unknown):
+        return True
+    if isinstance(v, Seq):
+        return any(_has_unknown(i) for i in v.items)
+    return False
+
+
 def check_slice_project(rep: Report, ix):
     from ..cfg_lite import all_paths
     from ..gridleaf import Const, Gather, LeafEval, Leaf, Seq, pair
@@ -740,6 +750,8 @@ def check_slice_project(rep: Report, ix):
                         "periodic": [Leaf("periodic", k_axis), Seq((Leaf("periodic", k_axis),))],
                     }[want]
                 ok = got in accepted
+                if not ok and _has_unknown(got):
+                    raise AnalysisError(f"{f.ref}: cannot tell which part of the grid `{p}={ast.unparse(arg)}` carries ({got}); idiom outside the leaf domain")
                 rep.oblige(f"{tag}: `{p}` = {want} of the retained axes", ok, f"{ast.unparse(arg)} carries {got}")
                 if not ok:
                     rep.violation(
